@@ -216,6 +216,14 @@ def execute(p: Dict[str, Any]) -> Dict[str, Any]:
                     if js.get("schema_version") != "v1":
                         bad("schema-marker-missing", "op#%d: schema_version=%r" % (oi, js.get("schema_version")))
                     written[name] = {"op": op, "body": body}
+                    mp = path + ".meta"
+                    if k == "write" and os.path.exists(mp):
+                        try:
+                            mj = json.load(open(mp, encoding="utf-8"))
+                            if mj.get("schema_version") != "v1":
+                                bad("sidecar-schema-marker", "op#%d: sidecar says %r" % (oi, mj.get("schema_version")))
+                        except Exception as e:  # noqa: BLE001
+                            bad("sidecar-unreadable", "op#%d: %r" % (oi, e))
                     continue
                 # ---- load ----
                 fresh: Dict[str, Any] = {"store": _W(), "version_etag": None}
